@@ -17,6 +17,7 @@ RULE = (
     "every edge/threshold/midpoint +-3ulp, NaN, +-inf, -0.0, None/NaN categories; weights dyadic, 0, negative, NaN). "
     "distinct = digest of (spec, stream); non-trivial = tree has a quantity-bearing node and >=1 record has weight>0 "
     "and the reference-model comparison was evaluated"
+    ' Each stream is also filled once more with its numbers re-typed (Python/numpy integers, float64, float32 NaN).'
 )
 ASSUMPTIONS = [
     "reference model (hgmon/refmodel.py) is a faithful restatement of the Histogrammar specification as worded in C02",
